@@ -470,8 +470,7 @@ def check(tier: str, seed: int, t0: float, build: core.BuildStatus) -> int:
             listed_only = not contains(x, lambda n: (n[0] == "bin" and n[1] not in LISTED) or (n[0] == "un" and n[1] == "Invert"))
             if "error" in obs:
                 if listed_only:
-                    fs = features(x)
-                    cls = fs[0] if fs else "refused"
+                    cls = "bool-operand-refused" if "bool-operand-refused" in features(x) else "refused"
                     viol(cls, f"{render(x, LEAF_QUERY)} is refused on {backend} ({obs['error']}: {obs['message'][:100]}) although Python defines it", replay)
                 continue
             if listed_only:
@@ -540,8 +539,7 @@ def check(tier: str, seed: int, t0: float, build: core.BuildStatus) -> int:
                     else:
                         oc.correspondence_breaks.append(replay)
                 if "error" in obs:
-                    fs = features(up)
-                    viol(fs[0] if fs else "aggregate-refused", f"Aggregate({render(sd, LEAF_QUERY)}, lambda acc, m: {render(up, LEAF_QUERY)}) refused on {backend}: {obs['error']}", replay)
+                    viol("bool-operand-refused" if "bool-operand-refused" in features(up) else "aggregate-refused", f"Aggregate({render(sd, LEAF_QUERY)}, lambda acc, m: {render(up, LEAF_QUERY)}) refused on {backend}: {obs['error']}", replay)
                     continue
                 # oracle: accumulator at least as wide as the seed and as every folded value, and an int fold stays int
                 if RANK.get(obs["type"], -1) < RANK[widest] or (widest == "int" and obs["type"] != "int"):
@@ -604,13 +602,13 @@ def check(tier: str, seed: int, t0: float, build: core.BuildStatus) -> int:
                 tag, cv = r[si]
                 sample = {"fl": s[0], "db": s[1], "it": s[2], "count": s[3]}
                 if not same_number(pv, cv, tol):
-                    cls = fs[0] if fs else ("conditional-value" if p["kind"] == "ifexp" else "wrong-value")
+                    cls = next((c for c in ("int-true-division", "unary-minus-bool") if c in fs), "conditional-value" if p["kind"] == "ifexp" else "wrong-value")
                     viol(cls, f"{obs['query']} on {backend} with {sample}: generated code computes {cv} ({p['declared']}), Python computes {pv!r}",
                          {**replay, "sample": sample, "python": repr(pv), "generated": cv})
                     break
                 pyt = ifexp_type(p["ifexp"][1], p["ifexp"][2]) if p["kind"] == "ifexp" else py_type(x)
                 if not type_ok(pyt, p["declared"]):
-                    cls = "conditional-declared-double" if p["kind"] == "ifexp" else (fs[0] if fs else "wrong-declared-type")
+                    cls = "conditional-declared-double" if p["kind"] == "ifexp" else ("unary-minus-bool" if "unary-minus-bool" in fs else "wrong-declared-type")
                     viol(cls, f"{obs['query']} on {backend}: the result is a Python {pyt} ({pv!r}) but the column is declared {p['declared']}",
                          {**replay, "sample": sample, "python": repr(pv), "declared": p["declared"]})
                     break
